@@ -268,6 +268,9 @@ def check(case, ctx):
     if not ok:
         return
     res = circuits_in(r)
+    if any(x is a for x in res for a in arg_circuits):
+        ctx.violation("result_is_argument", f"{what}: the returned circuit is the argument object itself", extra={"fn": fn})
+        return
     res = [x for x in res if not any(x is a for a in arg_circuits)]
     if not res:
         return
